@@ -113,6 +113,11 @@ let () =
                     h_vsname = (if t 6 = "-" then [] else name_of (t 6)); h_vsclass = (if t 7 = "-" then [] else name_of (t 7));
                     h_extag = z (i 8); h_exref = z (i 9); h_version = z (i 10); h_more = z (i 11) } in
           Printf.printf "%s\n" (hex (m_vpackvs h))
+        | "vssizeof" ->
+          let w = parse_wl ~names:(names_of (t 2)) (t 1) 0 in
+          (match m_vssizeof w.wl_fields (Some (names_of (t 3))) with
+           | None -> print_endline "-1"
+           | Some z -> Printf.printf "%d\n" (iz z))
         | "setname" | "setclass" ->
           let cur = if t 1 = "-" then [] else name_of (t 1) and nw = if t 2 = "-" then [] else name_of (t 2) in
           let (st, fl) = (if t 0 = "setname" then m_setname else m_setclass) cur nw (i 3 <> 0) in
